@@ -652,8 +652,12 @@ func checkEOFCondition(c *Ctx, fn *ssa.Function, call *ssa.Call, rule, name stri
 			k, sense, ok := kindOf(cmp)
 			if !ok {
 				// another test (method string etc.): follow the true edge once for `r.Method == "List"`
-				if s, isS := constString(cmp.Y); isS && s == "List" {
-					b = b.Succs[0]
+				if s, isS := constString(cmp.Y); isS && s == "List" && (cmp.Op == token.EQL || cmp.Op == token.NEQ) {
+					if cmp.Op == token.EQL {
+						b = b.Succs[0]
+					} else {
+						b = b.Succs[1]
+					}
 					continue
 				}
 				status = 0
